@@ -187,6 +187,7 @@ class CallsMixin:
         r = self._create(pos, kw, node)
         r.nonneg = True
         r.note = 'nonzero'
+        r.src = 'ones'
         if r.dims is not None and len(r.dims) == 1 and r.dims[0] is not None \
                 and r.dims[0].as_int() is not None and \
                 0 <= r.dims[0].as_int() <= 16:
@@ -213,12 +214,15 @@ class CallsMixin:
         dm = dn if (m is None or m.k == 'none') else (
             m.p if m.k == 'int' else None)
         dt = self.dtype_arg(kw.get('dtype'), 'f')
-        return ARR((dn, dm), dt, nonneg=True)
+        r = ARR((dn, dm), dt, nonneg=True)
+        if (m is None or m.k == 'none') and 'k' not in kw and len(pos) <= 1:
+            r.delta = (0, 1)
+        return r
 
     def n_identity(self, pos, kw, node, env):
         n = self.kwarg(pos, kw, 0, 'n')
         dn = n.p if n is not None and n.k == 'int' else None
-        return ARR((dn, dn), 'f', nonneg=True)
+        return ARR((dn, dn), 'f', nonneg=True, delta=(0, 1))
 
     def n_arange(self, pos, kw, node, env):
         args = [p for p in pos]
@@ -358,7 +362,30 @@ class CallsMixin:
         r.nonneg = a.nonneg
         r.orth = self.orth_reshape(a, new)
         r.lay = self.lay_reshape(a, new, order, node)
+        r.delta = self.delta_reshape(a, new, order)
         return r
+
+    def delta_reshape(self, a, new, order):
+        """The identity pattern survives a reshape that only inserts / drops
+        axes of extent 1; a reshape whose non-unit extents definitely differ
+        from the source's scrambles the paired axes ('broken')."""
+        if not isinstance(a.delta, tuple) or a.dims is None or \
+                any(d is None for d in a.dims) or \
+                any(d is None for d in new):
+            return None
+        old_nz = [(k, d) for k, d in enumerate(a.dims) if d.as_int() != 1]
+        new_nz = [(k, d) for k, d in enumerate(new) if d.as_int() != 1]
+        if len(old_nz) == len(new_nz) and \
+                all(same(x[1], y[1]) for x, y in zip(old_nz, new_nz)):
+            mp = {x[0]: y[0] for x, y in zip(old_nz, new_nz)}
+            if a.delta[0] in mp and a.delta[1] in mp:
+                return (mp[a.delta[0]], mp[a.delta[1]])
+            return None
+        if len(old_nz) == len(new_nz) and \
+                any(definitely_differ(x[1], y[1])
+                    for x, y in zip(old_nz, new_nz)):
+            return 'broken'
+        return None
 
     def orth_reshape(self, a, new):
         """ORTH survives a reshape that keeps the orthonormal axis: a matrix
@@ -716,6 +743,14 @@ class CallsMixin:
         from .layout import kron_layout
         r.lay = kron_layout(self, a, b, da, db)
         r.nonneg = a.nonneg and b.nonneg
+        # identity pattern replicated by an all-ones factor
+        for x, y, dx, dy in ((a, b, da, db), (b, a, db, da)):
+            if isinstance(y.delta, tuple) and x.src == 'ones':
+                off = n - len(y.dims)
+                i, j = y.delta[0] + off, y.delta[1] + off
+                if dx[i] is not None and dx[j] is not None and \
+                        dx[i].as_int() == 1 and dx[j].as_int() == 1:
+                    r.delta = (i, j)
         return r
 
     # ------------------------------------------------------------------
@@ -1013,6 +1048,7 @@ class CallsMixin:
                     r.unit, r.lg, r.deg = v.unit, v.lg, v.deg
             if short == 'sqrt':
                 r.nonneg = True
+                self.sqrt_site(v, node, env, r)
                 if v.lg is not None:
                     r.lg = v.lg.scale(Fraction(1, 2))
                 if v.unit is not None:
@@ -1102,6 +1138,31 @@ class CallsMixin:
                 self.site('S-axis', node, 'ok')
             r.dt = 'f'
         return r
+
+    def sqrt_site(self, v, node, env, r):
+        """G: sqrt of a computed scalar that may be (slightly) negative."""
+        if v.has_const() or v.nonneg or v.k in ('int', 'bool'):
+            return
+        if v.k == 'int' and v.p is not None:
+            return
+        from . import model as _m
+        arg = node.args[0] if isinstance(node, ast.Call) and node.args else None
+        safe = False
+        if arg is not None and env is not None:
+            src = _m.norm_src(self.I.mod(), arg)
+            from .npmodel import _guards
+            for fact, pol in env.get('$facts', ()):
+                if _guards(fact, pol, src):
+                    safe = True
+        if arg is not None and not isinstance(arg, ast.Name):
+            return          # only plain variables (results of contractions)
+        if safe:
+            self.site('G-sqrt', node, 'ok', 'guarded by a positivity test')
+        else:
+            self.site('G-sqrt', node, 'unknown', 'argument may be negative')
+            r.taint = r.taint | frozenset(['%s:%s sqrt(%s)' % (
+                self.I.where(), getattr(node, 'lineno', 0),
+                getattr(arg, 'id', '?'))])
 
     def log_site(self, v, node, env):
         safe = False
@@ -1199,7 +1260,10 @@ class CallsMixin:
             return ARR(None, a.dt)
         d = list(a.dims)
         d[ax] = None if d[ax] is None or rp is None else d[ax] * rp
-        return ARR(tuple(d), a.dt, nonneg=a.nonneg, lo=self.lo_of(a))
+        r = ARR(tuple(d), a.dt, nonneg=a.nonneg, lo=self.lo_of(a))
+        if isinstance(a.delta, tuple) and ax % len(d) not in a.delta:
+            r.delta = a.delta
+        return r
 
     def n_tile(self, pos, kw, node, env):
         a = self.as_arr(pos[0])
@@ -1209,9 +1273,16 @@ class CallsMixin:
         n = max(len(a.dims), len(reps))
         da = (ONE,) * (n - len(a.dims)) + tuple(a.dims)
         rp = (ONE,) * (n - len(reps)) + tuple(reps)
-        return ARR(tuple(None if x is None or y is None else x * y
-                         for x, y in zip(da, rp)), a.dt, deg=a.deg,
-                   nonlin=a.nonlin)
+        r = ARR(tuple(None if x is None or y is None else x * y
+                      for x, y in zip(da, rp)), a.dt, deg=a.deg,
+                nonlin=a.nonlin)
+        if isinstance(a.delta, tuple):
+            off = n - len(a.dims)
+            i, j = a.delta[0] + off, a.delta[1] + off
+            if rp[i] is not None and rp[j] is not None and \
+                    rp[i].as_int() == 1 and rp[j].as_int() == 1:
+                r.delta = (i, j)
+        return r
 
     def n_diag(self, pos, kw, node, env):
         a = self.as_arr(pos[0])
